@@ -675,9 +675,6 @@ func (r *Ref) eval(n *Node) Val { //nolint:gocyclo,funlen // node kinds
 			if IsErr(k) {
 				return k
 			}
-			if f, ok := k.(float64); ok && math.IsNaN(f) {
-				return errf("key NaN is not hashable")
-			}
 			v := r.evalU(n.Kids[i+1])
 			if IsErr(v) {
 				return v
@@ -779,6 +776,16 @@ func (r *Ref) infix(n *Node) Val {
 	rv := r.evalU(n.Kids[1])
 	if IsErr(rv) {
 		return rv
+	}
+	if op == "*" {
+		// a huge repeat count meets the interpreter's memory guard, which is a panic (not catchable): outside the model
+		if cnt, ok := rv.(int64); ok && cnt > 1<<22 {
+			switch l.(type) {
+			case string, *Arr:
+				r.Exhausted = true
+				return &Err{Msg: ErrBudget}
+			}
+		}
 	}
 	return r.big(Binary(op, l, rv))
 }
